@@ -236,9 +236,16 @@ def run_tlc(
     e.pop("JAVA_TOOL_OPTIONS", None)
     if env:
         e.update({k: str(v) for k, v in env.items()})
+    def _lift():
+        import resource
+
+        _s, hard = resource.getrlimit(resource.RLIMIT_AS)
+        resource.setrlimit(resource.RLIMIT_AS, (hard, hard))
+
     try:
         p = subprocess.run(
-            cmd, cwd=SPEC, env=e, stdout=subprocess.PIPE, stderr=subprocess.STDOUT, timeout=timeout, text=True
+            cmd, cwd=SPEC, env=e, stdout=subprocess.PIPE, stderr=subprocess.STDOUT, timeout=timeout, text=True,
+            preexec_fn=_lift,
         )
     except subprocess.TimeoutExpired as ex:
         subprocess.run(["pkill", "-f", meta], check=False)
